@@ -1,6 +1,7 @@
 import Driver.Util
 import Driver.RtCompat
 import Driver.IrCheck
+import Driver.DeclStub
 /-! Protocol handlers of the `decl.*` suites. -/
 open Lean
 namespace Driver.Decl
@@ -12,6 +13,9 @@ def handle (op : String) (j : Json) : Except String Json := do
   -- BEGIN C10: `decl.ircheck.*` (Driver/IrCheck.lean)
   if op.startsWith "decl.ircheck." then return ← Driver.IrCheck.handle op j
   -- END C10
+  -- BEGIN C15: `decl.stub.*` (Driver/DeclStub.lean)
+  if op.startsWith "decl.stub" then return ← Driver.DeclStub.handle op j
+  -- END C15
   throw s!"unknown op {op}"
 
 end Driver.Decl
